@@ -778,11 +778,15 @@ def prefix_tests(prog, ctx, is_s, lit):
     """number of places (body + local callees) where the prefix `lit` of s is examined"""
     from engine.analysis import inline_walk
     n = 0
-    for c, path in inline_walk(prog, ctx, 2):
+    hit = lambda s_: s_[0] == "call" and s_[1].split("::")[-1] in ("starts_with", "strip_prefix") and len(s_[2]) == 2 and is_s(s_[2][0]) and const_str(s_[2][1]) == lit
+    for c, path in inline_walk(prog, ctx, 3):
         for bi, atom in c.atoms():
             for s_ in subterms(atom[1]):
-                if s_[0] == "call" and s_[1].split("::")[-1] in ("starts_with", "strip_prefix") and len(s_[2]) == 2 and is_s(s_[2][0]) and const_str(s_[2][1]) == lit:
+                if hit(s_):
                     n += 1
+        if path:
+            # a callee / closure that returns the examination as a value (`s.strip_prefix(P).and_then(..)`)
+            n += sum(1 for s_ in subterms(c.T.return_term()) if hit(s_))
     return n
 
 
